@@ -323,6 +323,10 @@ func decodeBig(input []byte, base int) (*big.Int, error) {
 	if base == 16 && len(raw) > 64 {
 		return nil, Err256Range
 	}
+	// Parsing cost grows quadratically with the length of the text. No meaningful quantity needs more than a few hundred digits (2^256 has 78)
+	if base == 10 && len(raw) > 8192 {
+		return nil, Err256Range
+	}
 	dec := new(big.Int)
 	_, ok := dec.SetString(string(raw), base)
 	if !ok {
